@@ -11,12 +11,12 @@ def _p(**kw):
 
 PROFILES = {
     # property -> list of (weight, profile dict)
-    "C01": [(30, _p(world="mem", kinds=MF)), (15, _p(world="sim", kinds=MF_SIM, fault_kinds=["crash"])),
-            (10, _p(world="local", kinds=MF, p_async_stop=0.0)),
-            # a few long experiments (260-330 trials, duplicates allowed so that the table does not run out): trial ids
+    "C01": [(44, _p(world="mem", kinds=MF)), (22, _p(world="sim", kinds=MF_SIM, fault_kinds=["crash"])),
+            (14, _p(world="local", kinds=MF, p_async_stop=0.0)),
+            # a few long experiments (380-450 trials, duplicates allowed so that the table does not run out): trial ids
             # beyond the small numbers, many promotions per trial
-            (1, _p(world="sim", kinds=["hb_promotion", "hb_promotion", "hb_stopping", "hb_pasha"], p_fault_free=0.7, fault_kinds=["crash"],
-                   p_no_maxres=0.8, p_allow_dup=1.0, stop_fields=["max_num_trials_started"], min_trials=260, max_trials=330, long_runs=True)), ],
+            (1, _p(world="sim", kinds=["hb_promotion", "hb_promotion", "hb_promotion", "hb_pasha"], p_fault_free=0.7, fault_kinds=["crash"],
+                   p_no_maxres=0.9, p_allow_dup=1.0, stop_fields=["max_num_trials_started"], min_trials=380, max_trials=450, long_runs=True)), ],
     "C02": [(6, _p(world="mem", kinds=MF, p_latency=0.8, p_no_ckpt_script=0.4)),
             (3, _p(world="sim", kinds=MF_SIM, p_latency=0.8, p_no_ckpt_script=0.4, p_no_maxres=0.6, fault_kinds=["crash"])),
             (2, _p(world="local", kinds=MF, p_latency=0.8, p_no_ckpt_script=0.4, p_noise=0.6, p_async_stop=0.0)), ],
